@@ -39,6 +39,18 @@ fn sleep_instr(_s: &mut PushState, _c: &InstructionCache) {
     std::thread::sleep(std::time::Duration::from_millis(300));
 }
 
+/// a step that is slow AND big: sleeps 150 ms and pushes 50 integers (limits in combination)
+fn slow_burst_instr(s: &mut PushState, _c: &InstructionCache) {
+    std::thread::sleep(std::time::Duration::from_millis(150));
+    burst_instr(s, _c);
+}
+
+fn burst_instr(s: &mut PushState, _c: &InstructionCache) {
+    for j in 0..50 {
+        s.int_stack.push(j);
+    }
+}
+
 fn outcome_name(o: &PushInterpreterState) -> &'static str {
     match o {
         PushInterpreterState::NoErrors => "NoErrors",
@@ -119,6 +131,7 @@ fn rand_free(names: &[String]) -> Vec<String> {
 pub fn run(ctx: &mut Ctx) {
     let (mut is, names) = new_iset();
     is.add("VERIF.SLEEP".to_string(), Instruction::new(sleep_instr));
+    is.add("VERIF.SLOWBURST".to_string(), Instruction::new(slow_burst_instr));
     // resource envelope (as in C01): a program that explodes is skipped, not judged
     crate::props::c01::wrap_all(&mut is, &names);
     let cache = sorted_cache(&is);
@@ -441,6 +454,64 @@ pub fn run(ctx: &mut Ctx) {
         }
     }
 
+    // ---- limits in combination: ONE step that is both slow (crosses the wall-clock limit) and big (exceeds the
+    // growth cap). "GrowthCapExceeded exactly when a single step enlarged the state by more than growth_cap":
+    // once that step has been executed the outcome must be GrowthCapExceeded, however long the step took.
+    // (A run that is stopped by the clock BEFORE the big step started is legitimate on a starved machine.)
+    let ncombo = if ctx.is_fuzz() { 0 } else { ctx.n(6, 18) as u64 };
+    for k in 0..ncombo {
+        if !ctx.mine(k) {
+            continue;
+        }
+        let mut s = Snap::empty();
+        let nlead = (k % 3) as usize;
+        let limit_ms: u64 = [60u64, 100, 140][(k / 3 % 3) as usize];
+        let mut v: Vec<SItem> = (0..nlead).map(|j| SItem::Int(j as i32)).collect();
+        v.push(i("VERIF.SLOWBURST"));
+        v.push(SItem::Int(99));
+        s.e = vec![SItem::List(v)];
+        s.cfg.eval_time_limit = limit_ms;
+        s.cfg.eval_push_limit = if k % 2 == 0 { 100000 } else { (nlead + 1) as i32 }; // or: the big step is also the last budgeted one
+        s.cfg.growth_cap = 10;
+        ctx.rec.case_marker(1_100_000 + k, "slow and big step");
+        let sh = shadow_nosleep(&s, &mut is, &cache);
+        let mut st = build_state(&s);
+        EVENTS.with(|e| e.borrow_mut().clear());
+        let res = guarded(|| PushInterpreter::run(&mut st, &mut is));
+        ctx.rec.count("runs", 1);
+        ctx.rec.count("combined_limit_runs", 1);
+        match res {
+            Ok(o) => {
+                ctx.rec.set_add("outcomes", outcome_name(&o));
+                let steps_done = EVENTS.with(|e| e.borrow().iter().filter(|e| matches!(e.ev, RunEvent::Step { .. })).count());
+                let burst_step = 1 + nlead + 1; // the list is unpacked, the leading integers, then the burst
+                if steps_done < burst_step {
+                    // stopped before the big step: only the clock may have done that
+                    if o != PushInterpreterState::TimeLimitExceeded {
+                        ctx.rec.violation("C02", "run|combined-limits|stopped-early", &format!("outcome {} after {} steps, the big step is number {}", outcome_name(&o), steps_done, burst_step), "");
+                    }
+                    ctx.rec.count("combined_limit_runs_starved", 1);
+                } else {
+                    ctx.rec.count("combined_limit_runs_judged", 1);
+                    if o != PushInterpreterState::GrowthCapExceeded {
+                        ctx.rec.violation("C02", "run|growth-cap-masked-by-another-limit", &format!("step {} took 150 ms (time limit {} ms, step budget {}) and pushed 50 items (growth_cap 10): outcome {}", burst_step, limit_ms, s.cfg.eval_push_limit, outcome_name(&o)), "");
+                    }
+                    if steps_done != burst_step {
+                        ctx.rec.violation("C02", "run|combined-limits|ran-on", &format!("{} steps executed, the big step is number {}", steps_done, burst_step), "");
+                    }
+                }
+                if let Some(want) = sh.get(steps_done) {
+                    let fin = Snap::of(&st);
+                    if *want != fin {
+                        ctx.rec.violation("C02", "run|state-differs-from-single-stepping", &format!("combined-limits case: {}", want.diff_text(&fin)), "");
+                    }
+                }
+                ctx.rec.cover(&format!("combo|{}|{}|{}", nlead, limit_ms, k % 2));
+            }
+            Err(p) => ctx.rec.violation("C02", &format!("run|panic|{}", panic_sig(&p)), &p, ""),
+        }
+    }
+
     // ---- a step on an empty EXEC stack reports completion and changes nothing ----------------
     let nempty = ctx.n(3000, 60000);
     for k in 0..nempty as u64 {
@@ -472,6 +543,7 @@ pub fn run(ctx: &mut Ctx) {
 fn shadow_nosleep(init: &Snap, _is: &mut InstructionSet, _cache: &InstructionCache) -> Vec<Snap> {
     let (mut is2, _) = new_iset();
     is2.add("VERIF.SLEEP".to_string(), Instruction::new(|_s: &mut PushState, _c: &InstructionCache| {}));
+    is2.add("VERIF.SLOWBURST".to_string(), Instruction::new(burst_instr));
     let cache2 = sorted_cache(&is2);
     let mut st = build_state(init);
     if let Some(v) = st.exec_stack.copy_vec(st.exec_stack.size()) {
